@@ -148,6 +148,17 @@ def judge_serialize(ctx, case):
             bad.append(("spelling.%s%s%d" % (typ, net, purpose), rb32.spelled_prefix(typ, net, purpose), s[:6]))
         if typ == "pub" and private and rb32.ser256(xk.k) in (raw or b"") and rb32.ser256(xk.k) not in want:
             bad.append(("leaks_scalar", "absent", "present"))
+    # the same node object asked again for every flavour in another order: each answer must still be for the version asked
+    items = sorted(rb32.SLIP132.items(), key=lambda kv: (kv[1] * 7919) % 104729)
+    for (typ, net, purpose), ver in items:
+        if typ == "prv" and not private:
+            continue
+        try:
+            s2 = node.extended_private_key(version=ver) if typ == "prv" else node.extended_public_key(version=ver)
+            if rb58.classify_check(s2) != ("valid", xk.payload(ver, typ == "prv")):
+                bad.append(("second_pass.%s%s%d" % (typ, net, purpose), ver, s2[:8]))
+        except Exception as e:  # noqa
+            bad.append(("second_pass.raised", None, e))
     # default version follows the node's network
     try:
         dv = rb58.decode_check(node.extended_public_key())[:4]
